@@ -322,7 +322,15 @@ class Verifier:
         m = self.I.load_module(mod)
         obj = m
         for part in qual.split('.'):
-            obj = self.I.getattr_(obj, part) if not isinstance(obj, ModuleModel) else obj.ns[part]
+            if isinstance(obj, ModuleModel):
+                obj = obj.ns[part]
+            elif isinstance(obj, ClassModel):
+                obj, _ = obj.lookup(part)
+                from .model import StaticMethod, ClassMethod
+                if isinstance(obj, (StaticMethod, ClassMethod)):
+                    obj = obj.func
+            else:
+                obj = self.I.getattr_(obj, part)
         return obj
 
     # ------------------------------------------------------------- obligations
@@ -470,6 +478,9 @@ class Verifier:
         t0 = time.time()
         covers = [0]
         target = self.resolve_target(spec.target) if spec.target else None
+        from .model import PropertyModel
+        if isinstance(target, PropertyModel):
+            target = target.fget
 
         def thunk():
             st = RunState()
